@@ -145,46 +145,65 @@ def whileStep (cond : α → Bool) (step : α → α) : Nat → α → Option α
   | 0, _ => none
   | f + 1, x => if cond x then whileStep cond step f (step x) else some x
 
-/-- `int(position / side)` -/
+/-- `int(position / side)`: the raw quotient inside `CuboidCells._cell_identifier` -/
 def digit (o : Ops α) (side p : α) : Int := o.toInt (p / side)
 
+/-- `CuboidCells._cell_identifier(position_entry, index)`:
+`min(int(position_entry / self._cell_side_lengths[index]), self._cells_per_side[index] - 1)`
+(`n = cells_per_side[index]`; the quotient of a position just below the system length can round up to `n`) -/
+def cellDigit (o : Ops α) (side : α) (n : Int) (p : α) : Int := min (digit o side p) (n - 1)
+
 /-- the `lower_position` block of `CuboidCells.__init__` for one direction -/
-def lowerPos (o : Ops α) (st : Stepper α) (fuel : Nat) (side : α) (i : Int) : Except String α :=
+def lowerPos (o : Ops α) (st : Stepper α) (fuel : Nat) (side : α) (n : Int) (i : Int) : Except String α :=
   let lower := o.ofInt i * side
   if o.ofInt 0 < lower then
-    match whileStep (fun x => digit o side x == i) st.down fuel lower with
+    match whileStep (fun x => cellDigit o side n x == i) st.down fuel lower with
     | none => .error "fuel"
     | some l1 =>
-      match whileStep (fun x => decide (digit o side x < i)) st.up fuel l1 with
+      match whileStep (fun x => decide (cellDigit o side n x < i)) st.up fuel l1 with
       | none => .error "fuel"
       | some l2 => .ok l2
   else .ok lower
 
-/-- the `upper_position` block of `CuboidCells.__init__` for one direction -/
-def upperPos (o : Ops α) (st : Stepper α) (fuel : Nat) (side : α) (i : Int) : Except String α :=
+/-- the `upper_position` block of `CuboidCells.__init__` for one direction (`len = setting.system_lengths[index]`):
+```
+while upper_position < len and self._cell_identifier(upper_position, index) == i: upper_position = _next_float_up(upper_position)
+while upper_position >= len or self._cell_identifier(upper_position, index) > i:  upper_position = _next_float_down(upper_position)
+```
+`_cell_identifier` divides by the loop-invariant `side`, so it raises `ZeroDivisionError` exactly when `side == 0`, at its
+first evaluation: at once if `upper < len` (`and` evaluates it), otherwise when the second loop (whose `or` skips it while
+`upper >= len`) has stepped below `len`. -/
+def upperPos (o : Ops α) (st : Stepper α) (fuel : Nat) (side : α) (n : Int) (len : α) (i : Int) : Except String α :=
   let upper := o.ofInt (i + 1) * side
-  if side == o.ofInt 0 then .error "ZeroDivisionError"
+  if side == o.ofInt 0 then
+    if upper < len then .error "ZeroDivisionError"
+    else
+      match whileStep (fun x => decide (len ≤ x)) st.down fuel upper with
+      | none => .error "fuel"
+      | some _ => .error "ZeroDivisionError"
   else
-    match whileStep (fun x => digit o side x == i) st.up fuel upper with
+    match whileStep (fun x => decide (x < len) && (cellDigit o side n x == i)) st.up fuel upper with
     | none => .error "fuel"
     | some u1 =>
-      match whileStep (fun x => decide (digit o side x > i)) st.down fuel u1 with
+      match whileStep (fun x => decide (len ≤ x) || decide (cellDigit o side n x > i)) st.down fuel u1 with
       | none => .error "fuel"
       | some u2 => .ok u2
 
-/-- the `for index in range(dimension)` loop computing `cell_min`, `cell_max` -/
-def extents (o : Ops α) (st : Stepper α) (fuel : Nat) : List α → List Int → Except String (List α × List α)
-  | s :: ss, i :: is =>
-    match lowerPos o st fuel s i with
+/-- the `for index in range(dimension)` loop computing `cell_min`, `cell_max`
+(`side`, `perSide`, `lengths`, `ident` run over the directions together) -/
+def extents (o : Ops α) (st : Stepper α) (fuel : Nat) :
+    List α → List Int → List α → List Int → Except String (List α × List α)
+  | s :: ss, n :: ns, len :: lens, i :: is =>
+    match lowerPos o st fuel s n i with
     | .error e => .error e
     | .ok lo =>
-      match upperPos o st fuel s i with
+      match upperPos o st fuel s n len i with
       | .error e => .error e
       | .ok hi =>
-        match extents o st fuel ss is with
+        match extents o st fuel ss ns lens is with
         | .error e => .error e
         | .ok (los, his) => .ok (lo :: los, hi :: his)
-  | _, _ => .ok ([], [])
+  | _, _, _, _ => .ok ([], [])
 
 /-- `Cell.__init__`: `ConfigurationError` if `cell_min[d] >= cell_max[d]` for some direction -/
 def mkCell (ident : List Int) (lo hi : List α) : Except String (Cell α) :=
@@ -193,19 +212,19 @@ def mkCell (ident : List Int) (lo hi : List α) : Except String (Cell α) :=
 
 /-- the loop `for summed_cell_identifier in range(number_of_cells)`; `k` cells remain, `summed` is
 the loop variable, `ident` is `cell_identifier_list` -/
-def buildCells (o : Ops α) (st : Stepper α) (fuel : Nat) (perSide : List Int) (side : List α) (cp : List Int) :
-    Nat → Int → List Int → Except String (List (Cell α))
+def buildCells (o : Ops α) (st : Stepper α) (fuel : Nat) (perSide : List Int) (side lengths : List α)
+    (cp : List Int) : Nat → Int → List Int → Except String (List (Cell α))
   | 0, _, _ => .ok []
   | k + 1, summed, ident =>
     -- `assert summed_cell_identifier == sum(ident[d] * cumulative_product[d])`
     if summed != dot ident cp then .error "AssertionError"
-    else match extents o st fuel side ident with
+    else match extents o st fuel side perSide lengths ident with
       | .error e => .error e
       | .ok (lo, hi) =>
         match mkCell ident lo hi with
         | .error e => .error e
         | .ok c =>
-          match buildCells o st fuel perSide side cp k (summed + 1) (incr perSide ident) with
+          match buildCells o st fuel perSide side lengths cp k (summed + 1) (incr perSide ident) with
           | .error e => .error e
           | .ok rest => .ok (c :: rest)
 
@@ -237,7 +256,7 @@ def create (o : Ops α) (st : Stepper α) (fuel : Nat) (periodic : Bool) (length
     else
       let side := List.zipWith (fun l n => l / o.ofInt n) lengths perSide
       let cp := cumProdFrom 1 perSide
-      match buildCells o st fuel perSide side cp (numberOfCells perSide).toNat 0 (List.replicate dim 0) with
+      match buildCells o st fuel perSide side lengths cp (numberOfCells perSide).toNat 0 (List.replicate dim 0) with
       | .error e => .error e
       | .ok cells => .ok ⟨periodic, lengths, perSide, layers, side, cp, cells.toArray⟩
 
@@ -272,12 +291,17 @@ def neighbor (c : Cell α) (dir : Int) (positive : Bool) : Except String (Option
       | .error e => .error e
       | .ok c' => .ok (some c')
 
+/-- `[self._cell_identifier(position[d], d) for d in range(dimension)]` -/
+def cellDigits : List α → List Int → List α → List Int
+  | sd :: sds, n :: ns, p :: ps => cellDigit o sd n p :: cellDigits sds ns ps
+  | _, _, _ => []
+
 /-- `CuboidCells.position_to_cell` -/
 def positionToCell (pos : List α) : Except String (Cell α) :=
   -- `assert all(0.0 <= position[d] <= setting.system_lengths[d] ...)`
   if !((List.zipWith (fun p l => decide (o.ofInt 0 ≤ p) && decide (p ≤ l)) pos s.lengths).all id) then
     .error "AssertionError"
-  else cellOfIdent s (List.zipWith (fun sd p => digit o sd p) s.side pos)
+  else cellOfIdent s (cellDigits o s.side s.perSide pos)
 
 /-- `zip` of three lists with a function -/
 def zipWith3' {β γ δ ε : Type} (f : β → γ → δ → ε) : List β → List γ → List δ → List ε
